@@ -16,7 +16,7 @@ if env.REPO != "/repo":
     # evidence or replay directories
     OUT = os.path.join(env.VERIF, "out", "scratch-" + os.path.basename(env.REPO))
     EVID = os.path.join(OUT, "evidence")
-KNOWN = os.path.join(env.VERIF, "known_findings.txt")
+KNOWN = os.environ.get("WAVESIM_KNOWN") or os.path.join(env.VERIF, "known_findings.txt")
 
 TIERS = {
     # runs per check, shrink budget per violation (s), wall cap for the batch (s)
@@ -383,7 +383,8 @@ def finding_key(plan, v):
                 elif o["op"] == "func":
                     fam = o["fn"]
                 if o["op"] == "inverse":
-                    ess = "mask=" + ",".join(o.get("mask") or ["keep"])
+                    m = o.get("mask") or ["keep"]
+                    ess = "none-level=%d,zerodim-level=%d" % (int("none" in m), int("zerodim" in m))
     return "|".join([v["invariant"], fam, str(v.get("op")), ess])
 
 
